@@ -23,6 +23,22 @@ CHECKS = {
          "Seeded exploration of fault-free histories biased to exact-fit / one-byte-short boundaries; the shape of the writes of every call must equal what greedy in-order packing allows (exact-fill writes tolerated as the property states), plus an independent comparison of datagram sizes with the greedy packing of the emitted lengths.", SOCK),
 }
 
+QNOTE = "the wrapped sink is scripted (ok / io error / panic / slow / stall on a gate per invocation); crossbeam's blocking paths are replaced by simulated waiting on the real queue; capacity 0 (rendezvous, hand-modelled) is excluded from every oracle except no-panic"
+CHECKS.update({
+ "C08": ("queue", "E3", "5.3", "seeded schedule search over producers x worker interleavings with a scripted wrapped sink; delivered log must equal the channel-acceptance order at quiescence",
+         "Seeded exploration (uniform / PCT / bursty / starve-worker / favour-worker schedulers) of histories of emit, clone and drop on several handles from 1-4 caller tasks against the real QueuingMetricSink worker; at quiescence after faults stop, the strings handed to the wrapped sink must equal, as a sequence, the strings accepted by the queue (exactly once, acceptance order, one at a time).", QNOTE),
+ "C09": ("queue", "E3", "5.3", "seeded schedule search with drop timing and queue occupancy varied (starve-worker scheduler, stalls); termination and release of the wrapped sink judged at quiescence",
+         "Seeded exploration of the last drop at every occupancy 0..=capacity (incl. completely full), by main or by a producer task, with the worker running, starved or stalled inside the wrapped sink; after gates open the run must reach quiescence with everything delivered, every background task finished, the wrapped sink dropped exactly once, and no drop ever blocking or panicking.", QNOTE),
+ "C10": ("queue", "E3", "5.3", "seeded schedule search with the wrapped sink stalled on a gate; emit judged by own-step count, blocked-state count and the channel trace",
+         "Seeded exploration with the worker stalled, slow, failing or panicking: emit must never enter a blocked state, take a bounded number of its own steps, return Ok(len) exactly when the channel trace shows room and an error when the queue holds the capacity given to the constructor (never exceeded), never run the wrapped sink on a caller task, and no wrapped-sink error or panic may reach a caller.", QNOTE),
+ "C11": ("queue", "E3", "5.3", "seeded schedule search with injected panics (real unwinding through Worker::run into Sentinel::drop, which respawns under the scheduler)",
+         "Seeded exploration of ok/error/panic assignments incl. consecutive panics, first/last queued and panics after the last drop: delivery must still equal acceptance order exactly once, the sink keeps accepting, and panics() equals the number of injected panics at quiescent points.", QNOTE),
+ "C15": ("queue", "E3", "5.3", "seeded schedule search with a concurrent sampler task; counters compared with the harness's own counts at quiescent points",
+         "Seeded exploration: at harness-made quiescent points submitted/drained/queued must equal the number of Ok emits, wrapped-sink invocations and their difference; a sampler task reads queued() then submitted() at arbitrary interleavings (incl. the worker overtaking the producer's bookkeeping) and must see 0 <= queued <= submitted.", QNOTE),
+ "C16": ("queue", "E3", "5.3", "seeded schedule search over Ok/Err patterns with and without a handler; merged log of wrapped-sink calls and handler calls",
+         "Seeded exploration: for every queued metric whose wrapped-sink call failed, exactly one handler call with that error (kind and message), on the same background task, before the next metric; none for accepted metrics (incl. Ok(0)); none at all without a handler.", QNOTE),
+})
+
 def main():
     hooks_commits = subprocess.run("git -C /repo log --format=%H --grep='^verif hooks'", shell=True, capture_output=True, text=True).stdout.split()
     checks = []
@@ -57,6 +73,7 @@ def main():
         },
         "engines": [
             {"name": "dsim", "path": "dsim/", "serves_properties": sorted(claimed), "kind_free_text": "simulation kernel (real threads, one runs at a time, seeded scheduler, quiescence detection, teardown) + pass-through shims"},
+            {"name": "queue", "path": "ws/engines/src/e3.rs", "serves_properties": ["C08", "C09", "C10", "C11", "C15", "C16"], "kind_free_text": "E3: the real QueuingMetricSink (worker thread, sentinel respawn, crossbeam channel, counters) as simulated tasks against a scripted wrapped sink"},
             {"name": "linebuf", "path": "ws/engines/src/e2.rs", "serves_properties": ["C05", "C06", "C07", "C19"], "kind_free_text": "E2: histories of emit/flush/drop on the line-buffering writer and the buffered sinks with a per-write fault plan; reference model in ws/engines/src/linemodel.rs"},
         ],
         "checks": checks,
